@@ -2,6 +2,7 @@ import Ecal.Model.Prims
 import Ecal.Lemmas.C06Guards
 import Ecal.Model.Eval
 import Ecal.Lemmas.C06NoPanic
+import Ecal.Lemmas.C06FragB
 /-!
 C06 — no ECAL program, sink attribute or event can crash the host process.
 
@@ -374,6 +375,13 @@ example : ∃ s', (tryCore (throw (Sig.err ⟨"Operand is not a number", 1, 1⟩
 theorem eval_never_panics_partial (f sc : Nat) (n : Ecal.Parse.Node) (hn : Frag n) (s : St) (hs : Inv s) :
     ((eval f sc n).run.run s).1 ≠ .error Sig.panic ∧ Inv ((eval f sc n).run.run s).2 :=
   eval_frag_no_panic f sc n hn s hs
+
+/-- The decidable form the driver uses: `fragB` (run on the tree the REAL parser produced for every generated
+    case; `frag=1` in the driver output, share in the evidence) implies the hypothesis of
+    `eval_never_panics_partial`. -/
+theorem eval_never_panics_checked (k f sc : Nat) (n : Ecal.Parse.Node) (hb : Ecal.FragB.fragB k n = true) (s : St) (hs : Inv s) :
+    ((eval f sc n).run.run s).1 ≠ .error Sig.panic ∧ Inv ((eval f sc n).run.run s).2 :=
+  eval_frag_no_panic f sc n (fragB_sound k n hb) s hs
 
 /-- Running any entry of the function table with any arguments (any caller scope, heap, fuel) never yields
     `panic` and preserves `Inv`: function.Run builds the frame, binds `this`/`super`/parameters (defaults
